@@ -12,6 +12,7 @@
 //     P<id>        (async app) answer the oldest unanswered request now
 //     D<id>        application calls disconnect() on the http connection
 //     X  server.shutdown()    C  server.close()    K  destroy the server    T  time passes
+//     Y<0|1> server.set_keep_alive(b)
 //     Z<ms>  server.set_timeout(ms)   (with opts timeo=1 every accept logs the SO_RCVTIMEO/SO_SNDTIMEO read back from the socket)
 #define VERIF_WITH_ASIO
 #include "open_access.hpp"
@@ -97,7 +98,7 @@ struct Sim
   bool filter_ok{true};
   int reqno{0};
   // per connection application state
-  struct AppConn { std::deque<Recipe> pending; std::deque<std::string> queue; std::vector<std::string> keep; std::weak_ptr<HttpConn> conn; int chunks_left{0}; bool last_due{false}; };
+  struct AppConn { std::deque<Recipe> pending; std::deque<std::string> queue; std::deque<std::string> keep; std::weak_ptr<HttpConn> conn; int chunks_left{0}; bool last_due{false}; };
   std::map<int, AppConn> app;
 
   static int id_of(std::weak_ptr<HttpConn> const& weak)
@@ -123,8 +124,12 @@ struct Sim
     case 1: ok = conn->send(std::move(response), std::move(body)); break;
     case 2:
       {
-        ac.keep.push_back(body);
-        comms::ConstBuffers bufs(1, boost::asio::buffer(ac.keep.back()));
+        // the body in three buffers the application keeps
+        size_t n = body.size() / 3;
+        size_t first = ac.keep.size();
+        ac.keep.push_back(body.substr(0, n)); ac.keep.push_back(body.substr(n, n)); ac.keep.push_back(body.substr(2 * n));
+        comms::ConstBuffers bufs;
+        for (size_t i = first; i < ac.keep.size(); ++i) bufs.push_back(boost::asio::buffer(ac.keep[i]));
         ok = conn->send(std::move(response), std::move(bufs));
         break;
       }
@@ -346,6 +351,7 @@ struct Sim
     case 'K': w.log.push_back("server-destroy"); server.reset(); break;
     case 'T': w.log.push_back("tick"); break;
     case 'Z': if (server) { server->set_timeout(std::stoi(rest)); w.log.push_back("set-timeout=" + rest); } break;
+    case 'Y': if (server) { server->set_keep_alive(rest == "1"); w.log.push_back("set-keep-alive=" + rest); } break;
     default: w.log.push_back("?" + e);
     }
   }
